@@ -20,7 +20,7 @@ META = dict(
     level='proof',
     technique='Coq proof about a transcription of auto_xact_t::extend_xact / post_pred / xact_base_t::verify / the add_xact rule loop (extension = input ++ concat_map over the matching non-generated postings; generated postings never re-match for any number and order of rules; rules only reach later transactions; exact multiplication; the memoised quick matcher equals the full predicate; unbalanced extension rejected) + differential correspondence against ledger',
     level_text='Theorems in coq/Properties/Properties_C16.v are stated for the executable model of extend_xact (snapshot loop skipping the postings made by rules: ITEM_GENERATED without POST_CALCULATED, quick matcher with memo and fallback, amount multiply/copy, flags and state of the new posting, verify when a new posting must balance) inside the journal loop that keeps the rule list in file order and applies it after finalize. The model is tied to the code by running whole generated journals through ledger and through the extracted model and comparing, per transaction, acceptance and error class and, per posting, account, kind, exact rational amount and precision counter, cost, flags and state.',
-    level_note='F33 (rules skipped the postings finalize makes for the second and later commodities of an elided amount) was repaired by /repo e69e5ce; the model follows the fixed code (a posting is skipped only when ITEM_GENERATED without POST_CALCULATED), Properties_C16.journal_extension_every_posting is the full statement and the oracle key elided-commodity-posting-not-matched is a violation. Trusted as C01 (finalize is the C01/C02 model). Regular expressions are restricted to literal, case-insensitive substrings; predicates to account / payee matches and `amount < LIT`, `amount > LIT` under ! & |. Not modelled: rule lines with costs or amount expressions, `$account` and %(format) account names, notes/tags and assert/check lines of a rule, --strict/--pedantic, period transactions.',
+    level_note='Known finding F120 (Properties_C16.generated_posting_has_line_account_refuted): extend_xact registers the rule line\'s account again by its full name, so aliases in force at the transaction are applied a second time; the model does the same (realias). Account names reach the model RESOLVED (master account, apply account, one alias round at the place of the posting / rule line), computed by the harness; that rule lines and postings use the same root (top_account()) is regenerated from the source into Gen/AutoXactRoot.v and required by rule_lines_resolve_like_postings. F33 (rules skipped the postings finalize makes for the second and later commodities of an elided amount) was repaired by /repo e69e5ce; the model follows the fixed code (a posting is skipped only when ITEM_GENERATED without POST_CALCULATED), Properties_C16.journal_extension_every_posting is the full statement and the oracle key elided-commodity-posting-not-matched is a violation. Trusted as C01 (finalize is the C01/C02 model). Regular expressions are restricted to literal, case-insensitive substrings; predicates to account / payee matches and `amount < LIT`, `amount > LIT` under ! & |. Not modelled: rule lines with costs or amount expressions, `$account` and %(format) account names, notes/tags and assert/check lines of a rule, --strict/--pedantic, period transactions.',
     design_ref='DESIGN.md section 7 C16',
     assumptions=['commodities $ EUR AAA CCC in plain styles, every amount written with its commodity\'s usual number of decimals',
                  'account and payee patterns are literal alphanumeric substrings (regex = case-insensitive substring)',
@@ -417,8 +417,112 @@ def teach():
     return t
 
 
+# ---------------------------------------------------------------------------- account scopes
+class Scope:
+    """a directive line that changes how account names resolve: kind = 'master' (no text: --master-account NAME),
+    'apply' (apply account NAME), 'end' (end apply account), 'alias' (alias NAME=TARGET)"""
+    def __init__(self, kind, name=None, target=None):
+        self.kind, self.name, self.target = kind, name, target
+
+    def text(self):
+        return {'master': '', 'apply': 'apply account %s\n' % self.name, 'end': 'end apply account\n',
+                'alias': 'alias %s=%s\n' % (self.name, self.target)}[self.kind]
+
+
+def master_of(items):
+    for it in items:
+        if isinstance(it, Scope) and it.kind == 'master':
+            return it.name
+    return None
+
+
+def alias_step(aliases, name):
+    """journal_t::expand_aliases, one round (recursive_aliases off): the whole name, else its first component"""
+    if name in aliases:
+        return aliases[name], True
+    if ':' in name:
+        first, rest = name.split(':', 1)
+        if first in aliases:
+            return aliases[first] + ':' + rest, True
+    return name, False
+
+
+def resolve_items(items):
+    """the full account name every posting, rule line and alias target resolves to AT ITS PLACE in the file (property
+    text: "the rule line's account"): an alias hit (one round) wins, else master account + enclosing apply-account
+    names + the written name.  -> list parallel to items: [full names] for Txn / Rule, full target for an alias,
+    and for every item the alias table in force there"""
+    master = master_of(items)
+    stack, aliases, out = [], {}, []
+    pre = lambda: ([master] if master else []) + stack
+    def full(w):
+        a, hit = alias_step(aliases, w)
+        return a if hit else ':'.join(pre() + [w])
+    for it in items:
+        if isinstance(it, Scope):
+            if it.kind == 'apply':
+                stack = stack + [it.name]
+                out.append((None, dict(aliases)))
+            elif it.kind == 'end':
+                stack = stack[:-1]
+                out.append((None, dict(aliases)))
+            elif it.kind == 'alias':
+                t = ':'.join(pre() + [it.target])
+                aliases = dict(aliases)
+                aliases[it.name] = t
+                out.append((t, dict(aliases)))
+            else:
+                out.append((None, dict(aliases)))
+        elif isinstance(it, Rule):
+            out.append(([full(l.acct) for l in it.lines], dict(aliases)))
+        else:
+            out.append(([full(q.acct) for q in it.posts], dict(aliases)))
+    return out
+
+
+SCOPE_NAMES = ['Personal', 'Biz', 'X']
+ALIASES = [('Budget', 'Assets:Reserve:Budget'), ('Tax', 'Liabilities:Tax'), ('Liabilities', 'Debt:L'), ('Cash', 'Assets:Petty'),
+           ('Food', 'Expenses:Food:Misc'), ('Assets', 'A'), ('Income:Auto', 'Income:Generated'), ('Personal', 'P')]
+
+
+def add_scopes(rng, items):
+    """`apply account` blocks around arbitrary stretches of the file (rules only, transactions only, both, the rule inside
+    and its matches outside or the reverse, nested once), --master-account, alias directives anywhere"""
+    items = list(items)
+    r = rng.random()
+    if r < 0.45:
+        n = len(items)
+        a = rng.randrange(0, n)
+        b = rng.randrange(a + 1, n + 1)
+        block = [Scope('apply', rng.choice(SCOPE_NAMES))] + items[a:b]
+        if rng.random() < 0.35 and b - a >= 1:                      # nested once
+            c = rng.randrange(1, len(block))
+            d = rng.randrange(c, len(block) + 1)
+            block = block[:c] + [Scope('apply', rng.choice(SCOPE_NAMES))] + block[c:d] + [Scope('end')] + block[d:]
+        items = items[:a] + block + [Scope('end')] + items[b:]
+        if rng.random() < 0.3:                                      # a second, separate block
+            n2 = len(items)
+            k = [i for i in range(n2)]
+            a2 = rng.randrange(b + 2, n2 + 1) if b + 2 <= n2 else None
+            if a2 is not None and a2 < n2:
+                b2 = rng.randrange(a2 + 1, n2 + 1)
+                items = items[:a2] + [Scope('apply', rng.choice(SCOPE_NAMES))] + items[a2:b2] + [Scope('end')] + items[b2:]
+    if rng.random() < 0.25:
+        for _ in range(rng.choice([1, 1, 2])):
+            n, t = rng.choice(ALIASES)
+            items.insert(rng.randrange(0, len(items) + 1), Scope('alias', n, t))
+        # an alias may not sit between `apply` and nothing: any position is fine for ledger
+    if rng.random() < 0.15:
+        items.insert(0, Scope('master', rng.choice(['M', 'Top:Sub'])))
+    return items
+
+
 def gen_journal(rng, big=False):
-    """-> items: list of Rule / Txn in file order"""
+    """-> items: list of Rule / Txn / Scope in file order"""
+    return add_scopes(rng, gen_journal_plain(rng, big))
+
+
+def gen_journal_plain(rng, big=False):
     nrules = rng.choice([0, 1, 1, 2, 2, 3, 4])
     ntx = rng.randrange(1, 31) if (big or rng.random() < 0.15) else rng.randrange(1, 9)
     txs = [gen_txn(rng) for _ in range(ntx)]
@@ -445,10 +549,14 @@ def gen_journal(rng, big=False):
 
 
 def render(items, skip=(), with_rules=True):
-    """-> (text, {xact index: (first line, last line)})"""
+    """-> (text, {xact index: (first line, last line)}); scope directives are kept in every variant"""
     out, ranges, i, line = [], {}, 0, 1
     for it in items:
-        if isinstance(it, Rule):
+        if isinstance(it, Scope):
+            t = it.text()
+            if not t:
+                continue
+        elif isinstance(it, Rule):
             if with_rules:
                 t = it.text()
             else:
@@ -466,12 +574,25 @@ def render(items, skip=(), with_rules=True):
 
 
 def journal_sx(jid, items):
+    """the model is fed the RESOLVED account names (see resolve_items) and the alias directives with resolved targets"""
     sxs, i = [], 0
-    for it in items:
-        if isinstance(it, Rule):
-            sxs.append(it.sx())
+    names = resolve_items(items)
+    for it, (nm, _) in zip(items, names):
+        if isinstance(it, Scope):
+            if it.kind == 'alias':
+                sxs.append(['alias', it.name.encode(), nm.encode()])
+        elif isinstance(it, Rule):
+            x = it.sx()
+            for k, f in enumerate(nm):
+                x[2 + k] = list(x[2 + k])
+                x[2 + k][1] = f.encode()
+            sxs.append(x)
         else:
-            sxs.append(it.sx_i(i))
+            x = it.sx_i(i)
+            for k, f in enumerate(nm):
+                x[3 + k] = list(x[3 + k])
+                x[3 + k][1] = f.encode()
+            sxs.append(x)
             i += 1
     return lib.sx(['journal', jid] + sxs)
 
@@ -504,7 +625,9 @@ def pred_unspec(x):
 def items_spec(items):
     out = []
     for it in items:
-        if isinstance(it, Rule):
+        if isinstance(it, Scope):
+            out.append(dict(scope=it.kind, name=it.name, target=it.target))
+        elif isinstance(it, Rule):
             out.append(dict(rule=pred_spec(it.pred), syntax=it.syntax, shape=getattr(it, 'shape', '?'),
                             lines=[[l.acct, l.kind, amt_spec(l.amt), l.state] for l in it.lines]))
         else:
@@ -516,7 +639,9 @@ def items_spec(items):
 def items_unspec(spec):
     items = []
     for d in spec:
-        if 'rule' in d:
+        if 'scope' in d:
+            items.append(Scope(d['scope'], d.get('name'), d.get('target')))
+        elif 'rule' in d:
             r = Rule(pred_unspec(d['rule']), [Line(l[0], l[1], amt_unspec(l[2]), l[3]) for l in d['lines']], d['syntax'])
             r.shape = d.get('shape', '?')
             items.append(r)
@@ -585,14 +710,15 @@ def parse_rows(out):
     return rows
 
 
-def run_ledger(ctx, name, text):
+def run_ledger(ctx, name, text, master=None):
     path = ctx.path(name)
+    extra = ['--master-account', master] if master else []
     open(path, 'w').write(text)
     # ledger exits with the number of errors and names each one on stderr; anything else (the binary or its
     # library is being replaced by a concurrent build, exec failure) is retried before it is believed
     for attempt in range(5):
         try:
-            st, out, err = lib.run_ledger(['-f', path, 'reg', '--empty', '--no-rounding', '--format', FMT])
+            st, out, err = lib.run_ledger(extra + ['-f', path, 'reg', '--empty', '--no-rounding', '--format', FMT])
         except OSError:
             if attempt == 4:
                 raise
@@ -609,7 +735,7 @@ def run_clean(ctx, res, name, items, with_rules):
     """run the journal; if transactions are rejected run it again without them.
     -> (rows of the accepted transactions, {rejected index: (class, while extending)}, status)"""
     text, ranges = render(items, with_rules=with_rules)
-    st, out, err = run_ledger(ctx, name, text)
+    st, out, err = run_ledger(ctx, name, text, master_of(items))
     errs = parse_errors(err, ranges)
     rejected = {k: v for k, v in errs.items() if isinstance(k, int)}
     if errs.get('unlocated'):
@@ -617,7 +743,7 @@ def run_clean(ctx, res, name, items, with_rules):
     rows = parse_rows(out)
     if rejected:
         text2, _ = render(items, skip=set(rejected), with_rules=with_rules)
-        st2, out2, err2 = run_ledger(ctx, name + '.clean', text2)
+        st2, out2, err2 = run_ledger(ctx, name + '.clean', text2, master_of(items))
         rows = parse_rows(out2)
         if st2 != 0:
             res.notes.append('clean journal still has errors: %s' % err2.decode('utf-8', 'replace')[-200:])
@@ -693,9 +819,13 @@ def oracle(res, items, text, rows, rejected, base_rows, base_rejected):
     spec = items_spec(items)
     rules_seen = []
     i = 0
-    for it in items:
+    for it, (names, aliases) in zip(items, resolve_items(items)):
+        if isinstance(it, Scope):
+            continue
         if isinstance(it, Rule):
-            rules_seen.append((len(rules_seen), it))
+            # the rule as the property text reads it: every line with the full account name it has at the rule's place
+            view = Rule(it.pred, [Line(f, l.kind, l.amt, l.state) for l, f in zip(it.lines, names)], it.syntax)
+            rules_seen.append((len(rules_seen), view))
             continue
         payee = 'x%d' % i
         case = dict(journal=text, xact=i, spec=spec)
@@ -710,6 +840,10 @@ def oracle(res, items, text, rows, rejected, base_rows, base_rejected):
         if base is None:
             i += 1
             continue
+        # every written posting sits in the account its name resolves to at its place in the file
+        if [r['acct'] for r in base[:len(names)]] != names:
+            res.violations.append(dict(key='posting-account-misresolved', desc='a posting is not in the account its written name resolves to (master account, apply account, alias)',
+                                       case=case, observed=[r['acct'] for r in base[:len(names)]], required=names))
         ext = expected_extension(rules_seen, payee, base)
         if ext is None:
             res.count('oracle:undetermined-predicate')
@@ -765,6 +899,12 @@ def oracle(res, items, text, rows, rejected, base_rows, base_rejected):
         matched = True
         if norm(have) == norm(want):
             pass
+        elif norm(have) == norm([(alias_step(aliases, a)[0], k, s_, v) for (a, k, s_, v) in want]):
+            # finding F120: the account of a rule line goes through the aliases a second time (and through aliases
+            # defined after the rule) when the posting is generated
+            res.violations.append(dict(key='rule-line-account-re-aliased',
+                                       desc='a generated posting is not in the account its rule line names at the rule\'s place: the name was expanded again by the aliases in force at the transaction',
+                                       case=case, observed=[str(h) for h in have], required=[str(w) for w in want]))
         elif norm(have) == norm(want_old):
             # F33 (repaired): exactly the postings for the finalize-made part of an elided amount are missing
             res.violations.append(dict(key='elided-commodity-posting-not-matched',
@@ -778,9 +918,11 @@ def oracle(res, items, text, rows, rejected, base_rows, base_rejected):
                 key = 'extra-generated-postings'
             elif len(have) < len(want):
                 key = 'missing-generated-postings'
+            elif [h[1:] for h in norm(have)] == [w[1:] for w in norm(want)]:
+                key = 'generated-posting-wrong-account'
             else:
                 key = 'wrong-generated-posting'
-            res.violations.append(dict(key=key, desc='generated postings differ from one-per-rule-line-per-match', case=case,
+            res.violations.append(dict(key=key, desc=('the generated postings are not in the accounts the rule lines resolve to at the rule\'s place (apply account / master account / alias)' if key == 'generated-posting-wrong-account' else 'generated postings differ from one-per-rule-line-per-match'), case=case,
                                        observed=[str(h) for h in have], required=[str(w) for w in want]))
         if matched and any(not r['generated'] for r in suffix):
             res.violations.append(dict(key='generated-flag-missing', desc='a rule-made posting is not flagged generated', case=case,
@@ -824,6 +966,9 @@ def check_journal(ctx, res, j, items, model):
     i = 0
     nrules = 0
     for it in items:
+        if isinstance(it, Scope):
+            res.count('scope:' + it.kind)
+            continue
         if isinstance(it, Rule):
             nrules += 1
             res.count('rule:' + it.shape)
@@ -908,6 +1053,22 @@ def fixed_journals():
         rr.shape = 'fixed-recheck'
         js.append([teach(), rr, food(100), food(1),
                    Txn([P('Expenses:Food', 'R', A(F(30), 2, '$')), P('Expenses:Rent', 'R', A(F(-30), 2, '$'))], '2020/04/01')])
+    # account scopes: a rule inside `apply account` resolves its lines below the scope, like the postings there;
+    # around rules only / transactions only / both / nested / rule inside and match outside and the reverse;
+    # --master-account; aliases before the rule (one round at the rule's place)
+    def rl():
+        rr = Rule(Pred('acct', 'Expenses:Food'), [Line('Budget:Food', 'V', mult(('-1', 0))), Line('Envelope:Food', 'B', mult(('-0.5', 1))),
+                                                 Line('Envelope:Pool', 'B', mult(('0.5', 1)))], '/Expenses:Food/')
+        rr.shape = 'fixed-scope'
+        return rr
+    ap, en = (lambda n='Personal': Scope('apply', n)), (lambda: Scope('end'))
+    js.append([teach(), ap(), rl(), food(10), food(20), en(), food(30)])                       # both inside, one match outside after
+    js.append([teach(), ap(), rl(), en(), food(10)])                                            # rule inside, match outside
+    js.append([teach(), rl(), ap(), food(10), en(), food(20)])                                  # rule outside, match inside
+    js.append([teach(), ap(), food(5), ap('Sub'), rl(), food(10), en(), food(20), en(), food(30)])   # nested once
+    js.append([Scope('master', 'M'), teach(), ap(), rl(), food(10), en(), rl(), food(20)])      # with --master-account
+    js.append([teach(), Scope('alias', 'Budget', 'Assets:Reserve:Budget'), ap(), rl(), food(10), en()])
+    js.append([teach(), ap(), Scope('alias', 'Envelope', 'Env'), rl(), en(), food(10)])
     for jn in js:
         for it in jn:
             if isinstance(it, Txn) and not hasattr(it, 'shape'):
@@ -921,7 +1082,9 @@ def run(ctx, n_override=None):
     res.rule = ('journals interleaving 0-4 rules (account / payee substring predicates in query and expr syntax, amount comparisons, '
                 '! & | combinations; 1-4 lines: multipliers with 0-8 decimals incl. 0 and negative, fixed amounts, real / (virtual) / '
                 '[balanced] lines, state marks; balancing pairs, virtual-only, deliberately unbalancing, a line without amount; a family mixing real / [balanced] / (virtual) lines in every order whose must-balance lines sum to zero or miss it by a small residue, a missing counter-line or a counter-line in another commodity) with 1-30 '
-                'transactions (plain, elided incl. two commodities, virtual, cost, unbalanced; cleared/pending) after a transaction '
+                'transactions (plain, elided incl. two commodities, virtual, cost, unbalanced; cleared/pending), `apply account` '
+                'blocks around arbitrary stretches of the file (rules only, transactions only, both, nested once, rule inside and match '
+                'outside and the reverse), --master-account, alias directives; after a transaction '
                 'teaching each commodity its decimals; rules before, between and after the transactions; non-trivial = at least one rule '
                 'precedes the transaction and the text requires at least one generated posting; distinct by transaction text + the '
                 'rules before it')
